@@ -93,6 +93,11 @@ def events():
         # literals that make the C library report a range error while being converted (process-wide errno is state too)
         ("decl_double_out_of_range", {"kind": "block", "builder": "doc", "part": P["S_DECLARATION"], "text": "double d = 1e-400; double e = 1e999; int k = 3;"}),
         ("expr_integer_20_digits", {"kind": "block", "builder": "expr", "part": P["S_EXPRESSION"], "text": "1 + 99999999999999999999"}),
+        # scalar sets: every anonymous scalar type gets a generated name, which must not depend on what was parsed before
+        ("xml_scalar_sets", {"kind": "xml", "buf": xmlgen.simple_model(decl="typedef scalar[3] sid_t; sid_t sv; scalar[2] an; int bys[sid_t]; int i; clock x; chan c;",
+                                                                       select="q : scalar[2]", guard="forall (z : sid_t) bys[z] >= 0 && i == 0")}),
+        ("xta_scalar_sets", {"kind": "xta", "buf": "typedef scalar[2] t_t; t_t a; scalar[3] b; process P(scalar[2] p) { scalar[2] l; state s; init s; }\nsystem P;\n"}),
+        ("decl_scalar_block", {"kind": "block", "builder": "doc", "part": P["S_DECLARATION"], "text": "scalar[4] s4; typedef scalar[2] u_t; u_t uu[2];"}),
         ("xta_unknown_source", {"kind": "xta", "buf": "process P() { state A, B; init A; trans A -> B { }, -> A { guard 1 ( ; }; }\nsystem P;\n"}),
     ]
     return ev
@@ -337,7 +342,8 @@ def main():
     hs_all = []
     for l in range(1, L + 1):
         hs_all += all_histories(n, l)
-    for seedname, seed in SEEDS + [WRAP_SEED]:
+    # (quick: three of the four counter seeds; the fourth differs from the second only in the alignment, which phase 3 sweeps)
+    for seedname, seed in (SEEDS if t == "thorough" else SEEDS[:2] + SEEDS[3:]) + [WRAP_SEED]:
         hs = hs_all if seedname != WRAP_SEED[0] else [h for h in hs_all if len(h) <= 2]
         chunk = max(50, len(hs) // (ncpu * 2) + 1)
         for i in range(0, len(hs), chunk):
